@@ -34,7 +34,12 @@ func init() {
 			{ID: "C20-R1", Title: "start-up ordering; load/save key agreement; key pair created only when absent", Decides: "device id, key pair and pairings survive restarts", Floor: 7, Run: func(c *core.Ctx) { c20r1(c); passThrough(c, "C20"); keyPairRouting(c); returnsUndecorated(c, "C20") }},
 			{ID: "C20-R2", Title: "configuration number bump rule", Decides: "c# increases exactly when the structure changed", Floor: 3, Run: c20r2},
 			{ID: "C20-R3", Title: "values do not count in the content hash", Decides: "never because characteristic values changed", Floor: 4, Run: func(c *core.Ctx) { c20r3(c); valuePathsStoreOnlyValue(c) }},
-			{ID: "C20-R4", Title: "discoverable derives from the stored pairings; events wired", Decides: "discoverable exactly when no controller pairing is stored", Floor: 9, Run: func(c *core.Ctx) { c20r4(c); listenersAreKept(c); nameProfileErrorHandled(c) }},
+			{ID: "C20-R4", Title: "discoverable derives from the stored pairings; events wired", Decides: "discoverable exactly when no controller pairing is stored", Floor: 9, Run: func(c *core.Ctx) {
+				c20r4(c)
+				listenersAreKept(c)
+				nameProfileErrorHandled(c)
+				polarityEverywhere(c, "C20")
+			}},
 			{ID: "C20-R5", Title: "setup code validation", Decides: "accepted exactly when eight digits and not a trivial code", Floor: 5, Run: func(c *core.Ctx) { c20r5(c); pinFormatted(c) }},
 			{ID: "C20-R6", Title: "setup payload layout", Decides: "the setup URI decodes back to code, category and flags", Floor: 4, Run: c20r6},
 		},
@@ -170,7 +175,16 @@ func c20r1(c *core.Ctx) {
 		dec := false
 		core.Instrs(sv, func(i ssa.Instruction) {
 			if core.IsCall(i, "fmt.Sprintf") {
-				if s, ok := core.ConstString(core.Args(i)[0]); ok && s == "%d" {
+				if s, ok := core.ConstString(core.Args(i)[0]); ok && (s == "%d" || s == "%v") {
+					dec = true
+				}
+			}
+			// the same bytes by way of strconv
+			if core.IsCall(i, "strconv.Itoa") {
+				dec = true
+			}
+			if core.IsCall(i, "strconv.FormatInt") || core.IsCall(i, "strconv.FormatUint") {
+				if base, ok := core.ConstInt(core.Args(i)[1]); ok && base == 10 {
 					dec = true
 				}
 			}
@@ -549,6 +563,62 @@ func c20r4(c *core.Ctx) {
 	}
 	if n < 3 {
 		c.Bad("write:Config.discoverable", token.NoPos, "expected the default, the start-up and the event-driven writer of Config.discoverable")
+	}
+	// the new state is pushed to the responder: the event-driven writer hands the text records of the configuration to the service
+	// handle, where there is one (before Start there is none; the records are read when the service is registered)
+	if f := p.Func("", "(*ipTransport).updateMDNSReachability"); f != nil {
+		var push ssa.Instruction
+		core.Instrs(f, func(i ssa.Instruction) {
+			if cc := core.CallOf(i); cc != nil && cc.IsInvoke() && cc.Method.Name() == "UpdateText" {
+				push = i
+			}
+		})
+		if push == nil {
+			c.Bad("reachability-update-pushed@"+fname(f), f.Pos(), "the writer of Config.discoverable that runs on pairing events does not hand the text records to the responder (no UpdateText): the advertisement keeps the state of the start — a freshly paired accessory stays discoverable, one whose last pairing was removed cannot be found")
+		} else {
+			fromCfg := core.AnySource(core.CallOf(push).Args[0], func(sv ssa.Value) bool {
+				call, ok := sv.(*ssa.Call)
+				return ok && core.Callee(call) != nil && cn(core.Callee(call)) == "txtRecords"
+			})
+			h := core.CallOf(push).Value
+			_, hIsField := core.FieldLoad(h, mod+".ipTransport", "handle")
+			guarded := core.Dominated(push, core.NonNilFact(func(v ssa.Value) bool {
+				if v == h || sameValue(v, h) {
+					return true
+				}
+				_, isField := core.FieldLoad(v, mod+".ipTransport", "handle")
+				return isField && hIsField
+			}))
+			afterStore := false
+			for _, st := range p.FieldStores(tConfig, "discoverable") {
+				if st.Parent() == f && reachesAfter(st, push) {
+					afterStore = true
+				}
+			}
+			c.Check(fromCfg && guarded && afterStore, "reachability-update-pushed@"+fname(f), posOf(push), "after the new state is stored, the configuration's text records go to the service handle where there is one",
+				"the text records handed to the responder are not the configuration's, the update is not made on the branch where a service handle exists (test inverted), or it is made before the new state is stored: the advertisement does not follow the stored pairings")
+		}
+	}
+	// what is registered is a HAP service in the local domain (controllers browse for exactly that)
+	if f := p.Func("", "newService"); f != nil {
+		got := map[string]string{}
+		core.Instrs(f, func(i ssa.Instruction) {
+			st, ok := i.(*ssa.Store)
+			if !ok {
+				return
+			}
+			for _, fld := range []string{"Type", "Domain"} {
+				if _, isF := core.FieldAddrOf(st.Addr, "github.com/brutella/dnssd.Config", fld); isF {
+					if k, isK := core.ConstString(st.Val); isK {
+						got[fld] = k
+					} else {
+						got[fld] = "(not a constant)"
+					}
+				}
+			}
+		})
+		c.Check(got["Type"] == "_hap._tcp" && got["Domain"] == "local", "service-type-and-domain@"+fname(f), f.Pos(), "registered as _hap._tcp in local",
+			fmt.Sprintf("the service is registered as %q in %q: controllers browse for _hap._tcp in local, the accessory is not found", got["Type"], got["Domain"]))
 	}
 	// sf from the field
 	if f := p.Func("", "(Config).txtRecords"); f != nil {
@@ -976,6 +1046,82 @@ func c20r6(c *core.Ctx) {
 		base, isB := core.ConstInt(a[1])
 		c.Check(isK && isB && base == 10 && (bits == 0 || bits >= 27), "pin-parsed-whole@"+fname(f), posOf(i), "the code is parsed in base 10 at a width of at least 27 bits",
 			fmt.Sprintf("the setup code is parsed with base %d at %d bits: eight decimal digits need 27 (10^8 > 2^26) — codes ValidatePin accepts are refused here and the accessory has no setup URI", base, bits))
+	})
+	// the digit table: the 36 digits in order (the index is payload % 36)
+	if pk := p.Pkg("util"); pk != nil {
+		var digits []string
+		var tableName string
+		core.Instrs(f, func(i ssa.Instruction) {
+			if u, ok := i.(*ssa.UnOp); ok && u.Op == token.MUL {
+				if g, isG := u.X.(*ssa.Global); isG && g.Pkg == f.Pkg {
+					if sl, isSl := u.Type().Underlying().(*types.Slice); isSl {
+						if bt, isB := sl.Elem().Underlying().(*types.Basic); isB && bt.Kind() == types.String {
+							tableName = g.Name()
+						}
+					}
+				}
+			}
+		})
+		for _, file := range pk.Syntax {
+			ast.Inspect(file, func(n ast.Node) bool {
+				vs, ok := n.(*ast.ValueSpec)
+				if !ok || len(vs.Names) != 1 || vs.Names[0].Name != tableName || len(vs.Values) != 1 {
+					return true
+				}
+				if cl, ok := vs.Values[0].(*ast.CompositeLit); ok {
+					for _, e := range cl.Elts {
+						if v := constOf(pk.TypesInfo, e); v != nil && v.Kind() == constant.String {
+							digits = append(digits, constant.StringVal(v))
+						}
+					}
+				}
+				return true
+			})
+		}
+		if tableName != "" {
+			c.Check(strings.Join(digits, "") == "0123456789ABCDEFGHIJKLMNOPQRSTUVWXYZ" && len(digits) == 36, "base36-table@"+fname(f), f.Pos(), "the digit table is 0-9A-Z",
+				fmt.Sprintf("the base-36 digit table is %q: the URI does not decode back to the payload", strings.Join(digits, "")))
+		}
+	}
+	// version and reserved are 0; the dashes of the displayed code are taken out before it is parsed; the digits are joined with nothing
+	// in between; the digit index runs from 8 down
+	for k, fd := range fields {
+		if k < 2 && strings.HasPrefix(fd, "const") && fd != "const=0" && fd != "const&0x7" && fd != "const&0xf" {
+			c.Bad("payload-version-reserved-zero@"+fname(f), f.Pos(), "version / reserved field is %s, the setup payload has both 0", fd)
+		}
+	}
+	core.Instrs(f, func(i ssa.Instruction) {
+		if b, ok := i.(*ssa.BinOp); ok && b.Op == token.AND {
+			if m, isM := core.ConstInt(b.Y); isM && (m == 0x7 || m == 0xf) {
+				if k, isK := core.ConstInt(core.StripConv(b.X)); isK {
+					c.Check(k == 0, "payload-version-reserved-zero@"+fname(f), posOf(i), "version and reserved are 0", fmt.Sprintf("the version / reserved field of the setup payload is %d (both are 0): controllers refuse the code", k))
+				}
+			}
+		}
+		if core.IsCall(i, "strings.Replace") || core.IsCall(i, "strings.ReplaceAll") {
+			a := core.Args(i)
+			if valIs(a[0], f.Params[0]) {
+				old, ok1 := core.ConstString(a[1])
+				nw, ok2 := core.ConstString(a[2])
+				c.Check(ok1 && ok2 && old == "-" && nw == "", "dashes-removed@"+fname(f), posOf(i), "the dashes of the displayed code are removed before it is parsed",
+					fmt.Sprintf("the code is rewritten with %q -> %q before it is parsed (the dashes of the displayed form xxx-xx-xxx are to be removed): the code does not parse, or another one is encoded", old, nw))
+			}
+		}
+		if core.IsCall(i, "strings.Join") {
+			sep, ok := core.ConstString(core.Args(i)[1])
+			c.Check(ok && sep == "", "digits-joined@"+fname(f), posOf(i), "the digits are joined with nothing in between", fmt.Sprintf("the nine digits are joined with %q in between", sep))
+		}
+		if st, ok := i.(*ssa.Store); ok {
+			if ia, isIA := st.Addr.(*ssa.IndexAddr); isIA {
+				if bo, isB := core.StripConv(ia.Index).(*ssa.BinOp); isB && bo.Op == token.SUB {
+					if k, isK := evalInt(bo.X, 3); isK {
+						if _, isPhi := core.StripConv(bo.Y).(*ssa.Phi); isPhi {
+							c.Check(k == 8, "digit-index-from-8@"+fname(f), posOf(i), "the digit index is 8 - i", fmt.Sprintf("the digit index is %d - i for nine digits: out of range, or the first digit is left empty", k))
+						}
+					}
+				}
+			}
+		}
 	})
 	c.Check(msbFirst, "base36-order@"+fname(f), f.Pos(), "digits are stored most significant first", "the base-36 digits are not stored most significant first: the URI encodes another payload")
 	c.Check(nine && div36 && prefix, "base36-digits@"+fname(f), f.Pos(), "nine base-36 digits after X-HM://, setup id appended", "the payload is not rendered as nine base-36 digits after X-HM://")
